@@ -4,8 +4,8 @@
    `symbols_requested += 1` and the supplier call, between the store and the unlock — any other task may execute any
    number of instructions (a multi-threaded executor; each instruction touches one mutex-protected object or only
    the task's locals).  Invariant [GI]: mutual exclusion per slot, the supplier log is duplicate-free, a stored value is
-   the scripted answer of its key, per-class facts of the lock holder, no stuck task.  Not at this granularity: the
-   counters (C12/FineModel.v has them per atomic block, C12/ProgProofs.v per poll). *)
+   the scripted answer of its key, per-class facts of the lock holder, recorded results = remembered values, results ++
+   remaining lookups = the task's lookups, no stuck task.  The counters at this granularity: C12/ProgCount.v. *)
 From RM Require Import C12.Model C12.ProgModel C12.ProgProofs.
 From Coq Require Import Lia.
 
